@@ -166,6 +166,10 @@ def compute_col_stats(
             raise TypeError("Numerical series contains invalid entries. "
                             "Please make sure your numerical series "
                             "contains only numerical values or nans.")
+    if stype == torch_frame.timestamp:
+        # NOTE: Entries that cannot be parsed count as missing, consistent
+        # with `TimestampTensorMapper`.
+        ser = pd.to_datetime(ser, format=time_format, errors='coerce')
     if ser.isnull().all():
         # NOTE: We may just error out here if eveything is NaN
         stats = {
@@ -174,7 +178,6 @@ def compute_col_stats(
         }
     else:
         if stype == torch_frame.timestamp:
-            ser = pd.to_datetime(ser, format=time_format)
             ser = ser.sort_values()
         stats = {
             stat_type: stat_type.compute(ser.dropna(), sep)
